@@ -22,6 +22,16 @@ LISTS_SPEC = {'make': doc_lists, 'time_limit': {'quick': 420, 'thorough': 2400}}
 LISTS_H_SPEC = {'make': doc_lists_h, 'time_limit': {'quick': 420, 'thorough': 600}}
 HEADINGS_SPEC = {'make': doc_headings, 'time_limit': {'quick': 300, 'thorough': 2400}}
 DOC_ALL = [DOC_SPEC, LISTS_SPEC, LISTS_H_SPEC, HEADINGS_SPEC]
+def _twice(spec):
+    """the same harness with the second format switched on (C02); the other properties skip that part"""
+    def make(prog, tier, f=spec['make']):
+        hz = f(prog, tier)
+        hz.second_pass = True
+        hz.wiki_refs = True
+        hz.required_covers = tuple(hz.required_covers) + ('text-formatted-twice',)
+        return hz
+    return dict(spec, make=make)
+DOC_ALL_TWICE = [_twice(s_) for s_ in DOC_ALL]
 
 COMMON = [
     'Deciding step: z3 over path conditions of the real MIR (rustc -Zunpretty=mir of /repo working tree, overflow-checks on); '
@@ -113,7 +123,7 @@ PROPS = {
         'line_starts over strings given by their line structure (symbolic line lengths, LF / CRLF / missing final newline), std str::lines / '
         'split_inclusive / split / len modelled on that structure',
         'which byte ranges pulldown-cmark reports for a block (e.g. a last line without newline) and UTF-16 vs byte columns are outside the claim']},
-    'C02': {'specs': DOC_ALL + [RENDER_SPEC], 'notes': COMMON + [WRITER_NOTE,
+    'C02': {'specs': DOC_ALL_TWICE + [RENDER_SPEC], 'notes': COMMON + [WRITER_NOTE,
         'text fixpoint: on every path of the document harnesses the projected blocks are written by the real writer, read back by the reference reader, built and projected '
         'again by the real code and written again; the two texts must be equal (heading depths symbolic: a run of # of symbolic length is carried as a mark and compared by the solver); '
         'a table stands as one non-paragraph leaf (its own text comes from the cmark writer, outside); inline mark-up beyond emphasis / plain links, escaping of '
